@@ -29,6 +29,8 @@ func main() {
 	procRuns := flag.Int("procruns", 0, "how many standard and how many tie histories also run every replica in its own process (c01)")
 	rtRuns := flag.Int("rtruns", 0, "how many of the standard histories (the last ones) register two runtimes (c01)")
 	runtimes := flag.Bool("runtimes", false, "replica mode: runtimes genesis")
+	upgRuns := flag.Int("upgruns", 0, "how many of the standard histories (the first ones) contain a consensus upgrade (c01)")
+	upgradeF := flag.Bool("upgrade", false, "replica mode: upgrade backend")
 	tie := flag.Bool("tie", false, "replica mode: election-tie genesis")
 	idx := flag.Int("idx", 0, "replica mode: configuration index")
 	flag.Parse()
@@ -41,9 +43,9 @@ func main() {
 			defer os.RemoveAll(d)
 			*out = d
 		}
-		c01Main(*seed, *out, *blocks, *runs, *replay, *noBg, *tieRuns, *tieBlocks, *procRuns, *rtRuns)
+		c01Main(*seed, *out, *blocks, *runs, *replay, *noBg, *tieRuns, *tieBlocks, *procRuns, *rtRuns, *upgRuns)
 	case "replica":
-		replicaMain(*seed, *tie, *runtimes, *idx, !*noBg)
+		replicaMain(*seed, *tie, *runtimes, *upgradeF, *idx, !*noBg)
 	case "smoke2":
 		smoke2(*seed)
 	default:
